@@ -64,6 +64,7 @@ struct primesieve_verif_probe
   static uint64_t segHigh(const primesieve::PrimeGenerator& pg) { return pg.segmentHigh_; }
   static const primesieve::Vector<uint8_t>& sieve(const primesieve::PrimeGenerator& pg) { return pg.sieve_; }
   static uint64_t pendingPrime(const primesieve::PrimeGenerator& pg) { return pg.prime_; }
+  static uint64_t nextSievingPrime(primesieve::PrimeGenerator& pg) { return pg.sievingPrimes_.next(); }
   static uint64_t maxSmall(const primesieve::PrimeGenerator& pg) { return pg.maxEratSmall_; }
   static uint64_t maxMedium(const primesieve::PrimeGenerator& pg) { return pg.maxEratMedium_; }
   static void setSieveIdxDone(primesieve::PrimeGenerator& pg) { pg.sieveIdx_ = pg.sieve_.size(); }
@@ -261,10 +262,50 @@ int streamSegment(std::istream& in)
     auto t = split(line);
     if (t.empty() || t[0][0] == '#')
       continue;
-    if (t[0] != "seg" || t.size() < 4) { std::cerr << "bad op: " << line << "\n"; return 2; }
+    if ((t[0] != "seg" && t[0] != "sp") || t.size() < 4) { std::cerr << "bad op: " << line << "\n"; return 2; }
     uint64_t start = u64(t[1]), stop = u64(t[2]);
     int kib = atoi(t[3].c_str());
     primesieve::set_sieve_size(kib);
+    if (t[0] == "sp")
+    {
+      // what SievingPrimes::next() delivers (hypothesis of C01_loop_segments_correct): sieve the first segment, then drain
+      // the generator's own SievingPrimes object: pending prime_, then every further value up to the sentinel ~0ull
+      std::cout << "sp " << start << " " << stop << " " << kib << " l1=" << primesieve_verif_probe::l1CacheSize() << " => ";
+      try
+      {
+        primesieve::PrimeGenerator pg(start, stop);
+        primesieve::Vector<uint64_t> primes;
+        std::size_t size = 0;
+        bool ok = primesieve_verif_probe::pgSieveNext(pg, primes, &size);
+        uint64_t pending = ok ? primesieve_verif_probe::pendingPrime(pg) : 0;
+        uint64_t n = 0, sum = 0, last = pending;
+        const char* order = "ok";
+        if (ok && pending != 0 && pending != ~0ull)
+        {
+          n = 1; sum = pending;
+          uint64_t prev = pending;
+          while (true)
+          {
+            uint64_t v = primesieve_verif_probe::nextSievingPrime(pg);
+            if (v == ~0ull)
+            {
+              if (primesieve_verif_probe::nextSievingPrime(pg) != ~0ull) order = "sentinel-not-sticky";
+              break;
+            }
+            if (v <= prev) order = "not-increasing";
+            if (!isPrimeOracle(v)) order = "composite";
+            n++; sum += v; last = v; prev = v;
+          }
+        }
+        std::cout << "pending=" << pending << " n=" << n << " sum=" << sum << " last=" << last << " order=" << order
+                  << (strcmp(order, "ok") ? " ORACLE-MISMATCH" : "") << "\n";
+      }
+      catch (const std::exception& e)
+      {
+        std::cout << "ERR:" << errClass(e) << "\n";
+      }
+      continue;
+    }
     std::cout << "seg " << start << " " << stop << " " << kib << " l1=" << primesieve_verif_probe::l1CacheSize() << " => ";
     try
     {
